@@ -18,8 +18,9 @@
 //
 //	chain    first truthy member, else the v-else member, else nothing (C03)
 //	v-for    one instance per item in order, bindings inside only; v-if on the same element is a
-//	         per-item filter (suite-pinned); a directly following v-else element is rendered iff a
-//	         looped ELEMENT produced no instance (C04)
+//	         per-item filter (suite-pinned); the v-else-if / v-else siblings that directly follow
+//	         a looped ELEMENT belong to it: they are rendered as a chain iff the loop produced
+//	         no instance, and skipped otherwise (C04, /repo a76c66e)
 //	include  body evaluated with includer scope (+) props (+) front-matter (front-matter wins);
 //	         nothing of it visible afterwards (C05); shorthand tag == explicit include
 //	slot     supplied content for that name evaluated in the scope of the INCLUDE SITE plus the slot
